@@ -5,7 +5,7 @@
 From Coq Require Import String.
 From Coq Require Import List ZArith Bool Arith Lia.
 Import ListNotations.
-Require Import C19.Model C19.ProofsShape C19.ProofsGuard C19.gen.Guards C19.GenProofs.
+Require Import C19.Model C19.ProofsShape C19.ProofsGuard C19.ProofsCat C19.ProofsDiag C19.gen.Guards C19.GenProofs.
 Open Scope nat_scope.
 
 (* ---- the rules (spec), for shapes of ALL ranks -------------------------------------------------------- *)
@@ -68,6 +68,29 @@ Theorem C19_getitem_int_exact : forall sizes idx,
   (lib_compute_getitem_size true sizes idx = Raise <-> int_oob sizes idx = true).
 Proof. exact getitem_size_int_exact. Qed.
 
+(* ---- concatenation --------------------------------------------------------------------------------------- *)
+
+(* CatLinearOperator._check_args (run by the constructor under settings.debug) accepts exactly the operand lists
+   torch.cat accepts: any number (>= 2) of operands, any ranks, any dim *)
+Theorem C19_cat_check_args_exact : forall rep t0 rest d,
+  lib_cat_check_args (rep :: t0 :: rest) d = Ok tt <-> torch_cat (rep :: t0 :: rest) d <> None.
+Proof. exact cat_check_args_exact. Qed.
+
+(* the constructor (dim normalisation + check) is exact for every dim that is a dimension of the operands *)
+Theorem C19_cat_constructor_exact_in_range : forall rep t0 rest d,
+  (- Z.of_nat (length rep) <= d < Z.of_nat (length rep))%Z ->
+  (lib_cat_init (rep :: t0 :: rest) d = Ok tt <-> torch_cat (rep :: t0 :: rest) d <> None).
+Proof. exact cat_init_exact_in_range. Qed.
+
+(* ---- add_diagonal ---------------------------------------------------------------------------------------- *)
+
+(* base add_diagonal (is_square, then Tensor.expand of the diagonal): whatever passes it is a square operator and a
+   diagonal that broadcasts against shape[:-1], for all ranks — the check never lets through what torch refuses *)
+Theorem C19_add_diagonal_guard_sufficient : forall a d s,
+  lib_add_diagonal_check a d = Ok s ->
+  lib_is_square a = Ok true /\ torch_broadcast (py_slice_to a (-1)) d <> None.
+Proof. exact add_diagonal_guard_sufficient. Qed.
+
 (* ---- composed statements over the regenerated guard table ------------------------------------------------ *)
 
 (* If the verdict function finds that every path a tensor operand can take through class c's entry point e
@@ -122,6 +145,10 @@ Proof. exact zero_add_refuted. Qed.
 
 Theorem C19_zero_matmul_batch_refuted : exists a b s, torch_matmul_shape a b = None /\ pinned_zero_matmul a b = Ok s.
 Proof. exact zero_matmul_batch_refuted. Qed.
+
+(* ... but not for dim = rank: the pinned constructor maps it to 0 before the check *)
+Theorem C19_cat_dim_out_of_range_refuted : exists ops d, torch_cat ops d = None /\ lib_cat_init ops d = Ok tt.
+Proof. exact cat_dim_out_of_range_refuted. Qed.
 
 Theorem C19_expand_batch_nonsingleton_refuted : exists a sizes s,
   torch_expand a sizes = None /\
